@@ -39,5 +39,7 @@ ASSUME PropertyWF
 \* (endpoint, <<a>> or <<a, b>>, credential) for every a / every listed pair
 Table == [i \in EpIdx |-> [ep |-> Endpoints[i], devs |-> DevTable[i], pairs |-> SetToSeq(PairTable[i])]]
 ASSUME EmitTable == ndJsonSerialize("endpoints.ndjson", Table)
+ASSUME EmitFollowUps == ndJsonSerialize("followups.ndjson", FollowUps)
+ASSUME EmitStores == ndJsonSerialize("stores.ndjson", SetToSeq({Endpoints[i].name : i \in {j \in EpIdx : Stores(Endpoints[j])}}))
 ASSUME EmitCreds == ndJsonSerialize("creds.ndjson", SetToSeq(Creds))
 =============================================================================
